@@ -130,27 +130,19 @@ Theorem C05_frame :
     nth_error res j = Some (ss, w).
 Proof. exact sign_tx_frame. Qed.
 
-(* ---- exceptions escaping Tx.sign: full statement, refutation, partial theorem ------------------------------------- *)
-(* "Signing never raises on a push-only input": FALSE for the current code.  A P2PKH / P2WPKH / P2SH-P2WPKH input whose
-   existing unlocking data contains something that parses as a signature (a signature made stale by editing the
-   transaction) makes _find_signatures call sec_to_public_pair on an unresolved Atom: TypeError escapes Tx.sign
-   (known finding resign-stale-pkh-typeerror; replayed on /repo by harness/c05.py). *)
-Definition C05_statement_sign_never_raises : Prop := no_crash_statement.
-
-Theorem C05_refuted_stale_pkh : ~ C05_statement_sign_never_raises.
-Proof. exact no_crash_refuted. Qed.
-
-(* everything outside the exclusion predicate stale_pkh is fine *)
-Theorem C05_sign_never_raises_partial :
+(* ---- no exception escapes Tx.sign -------------------------------------------------------------------------------- *)
+(* On every input inside the contract's domain (push-only scriptSig), whatever it already holds — stale signatures,
+   placeholders, garbage pushes — one iteration of Solver.sign returns (the input is rewritten or left as it was);
+   hypotheses: the effective hash type fits a byte and the coin defines its digest. *)
+Theorem C05_sign_never_raises :
   forall (hash160 sha256 : bytes -> bytes) (verifies : bytes -> bytes -> bytes -> bool) (sign : bytes -> bytes -> bytes)
          (pub_of : bytes -> bool -> bytes) (sighash : bool -> N -> bytes -> option bytes)
          (db : lookup) (p2sh : list bytes) (forkid : bool) (pz : puzzle) (hto : option N) (ss : bytes) (w : list bytes),
   existing_blobs ss w <> None ->
-  stale_pkh pz ss w = false ->
   effective_hash_type forkid hto < 256 ->
   (forall wit sc, sighash wit (effective_hash_type forkid hto) sc <> None) ->
   exists st, sign_input hash160 sha256 verifies sign pub_of sighash db p2sh forkid pz hto ss w = Ret st.
-Proof. exact sign_input_no_crash_partial. Qed.
+Proof. exact sign_input_no_crash. Qed.
 
 (* ---- the regenerated constants (placeholder, opcodes, flag values, 520 / 10 000 / 1000 limits, fork-id coins) --- *)
 Theorem C05_generated_constants : gen_c05_consts_ok = true.
@@ -162,6 +154,5 @@ Print Assumptions C05_standard_valid_is_push_only_minimal.
 Print Assumptions C05_standard_multisig_stack_shape.
 Print Assumptions C05_partial_signing_order_free.
 Print Assumptions C05_frame.
-Print Assumptions C05_refuted_stale_pkh.
-Print Assumptions C05_sign_never_raises_partial.
+Print Assumptions C05_sign_never_raises.
 Print Assumptions C05_generated_constants.
